@@ -21,15 +21,34 @@ func record(c Case, info Info) {
 
 // Styles is the finite alphabet of wrap texts of the exhaustive part.
 var Styles = []Wrap{
-	{"", ""}, // fmt.Errorf("%w", err)
-	{"ctx: ", ""},
-	{"", " (while x=1)"},
-	{`{"op":"get","err":"`, `"}`},
-	{"\x1bjso", "\x1b"}, // the marker's neighbours
-	{"100% of json: %w %s %d ", ": rpc error: code = NotFound desc = file does not exist"},
-	{"héllo → 日本: ", " ✓ 😀"},
-	{"n", "json"}, // completes a marker next to style 4: Run replaces the texts of that level
+	{Pre: "", Post: ""}, // fmt.Errorf("%w", err)
+	{Pre: "ctx: ", Post: ""},
+	{Pre: "", Post: " (while x=1)"},
+	{Pre: `{"op":"get","err":"`, Post: `"}`},
+	{Pre: "\x1bjso", Post: "\x1b"}, // the marker's neighbours
+	{Pre: "100% of json: %w %s %d ", Post: ": rpc error: code = NotFound desc = file does not exist"},
+	{Pre: "héllo → 日本: ", Post: " ✓ 😀"},
+	{Pre: "n", Post: "json"}, // completes a marker next to style 4: Run replaces the texts of that level
 }
+
+// Levels is the finite alphabet of level forms of TestC19ExhaustiveTrees: a plain fmt level, GRPCWrap at this
+// level, and for each kind of side error a fmt.Errorf with two %w verbs and an errors.Join, with the class
+// branch first (bare side error) or last (side error wrapped once itself, errors.New with another text).
+var Levels = func() []Wrap {
+	ls := []Wrap{{Pre: "ctx: "}, {Kind: LGRPC}}
+	for _, sk := range SideKinds {
+		first, last := Side{Kind: sk}, Side{Kind: sk, Text: "request context: "}
+		if sk == "new" {
+			first.Text, last.Text = "side failure", "cleanup failed: disk"
+		}
+		ls = append(ls,
+			Wrap{Pre: "read \"k\": ", Mid: " (", Post: ")", Sides: []Side{first}, Pos: 0},
+			Wrap{Pre: "", Mid: "; ", Post: "", Sides: []Side{last}, Pos: 1},
+			Wrap{Kind: LJoin, Sides: []Side{first}, Pos: 0},
+			Wrap{Kind: LJoin, Sides: []Side{last}, Pos: 1})
+	}
+	return ls
+}()
 
 // Objects is the finite set of embedded objects of the exhaustive part.
 var Objects = []*Obj{
@@ -134,6 +153,31 @@ func TestC19Exhaustive(t *testing.T) {
 			}
 		}
 	}
+	// twins: for every ordered pair of classes two chains with byte-identical messages ("ctx: <text A>, <text B> (while
+	// x=1)"), one around A, one around B, in both orders of construction, without and with an object above level 0
+	twins := int64(0)
+	for _, a := range CodedClasses {
+		for _, b := range CodedClasses {
+			for emb := -1; emb <= 2; emb++ {
+				if emb == 0 || a == b || !mine() {
+					continue
+				}
+				ch := Chain{Class: a, Wraps: []Wrap{{Pre: "ctx: ", Post: " (while x=1)"}, Styles[1]}, Embed: emb}
+				if emb > 0 {
+					ch.Obj = Objects[0]
+				}
+				x, y, ok := Twins(ch, b)
+				if !ok {
+					t.Fatal("no twins for a plain chain")
+				}
+				for _, eager := range []bool{false, true} {
+					run(Case{Kind: "batch", Eager: eager, Chain: Chain{Embed: -1}, Batch: []Chain{x, y}})
+					run(Case{Kind: "batch", Eager: eager, Chain: Chain{Embed: -1}, Batch: []Chain{y, x}})
+					twins += 2
+				}
+			}
+		}
+	}
 	if shard == 0 {
 		for code := uint32(0); code < NumCodes; code++ {
 			for _, m := range Messages {
@@ -147,7 +191,44 @@ func TestC19Exhaustive(t *testing.T) {
 		"wrap_styles": len(Styles), "wrap_depth": depth, "wrap_lists_this_shard": lists, "objects": len(Objects),
 		"chain_cases_this_shard": chains, "codes": NumCodes, "messages": len(Messages), "code_cases_this_shard": codesN,
 		"size_targets": SizeTargets, "pad_places": PadPlaces, "sized_chain_cases_this_shard": sized,
-		"batch_sizes": "2..8", "batch_cases_this_shard": batches, "shards": shards})
+		"batch_sizes": "2..8", "batch_cases_this_shard": batches, "twin_batch_cases_this_shard": twins, "shards": shards})
+}
+
+// TestC19ExhaustiveTrees: every list of level forms (Levels) up to depth 3 (thorough 4) around every coded class,
+// without an object and with Objects[0] embedded at every level: trees with side branches (several %w, errors.Join)
+// holding context.Canceled / context.DeadlineExceeded / io.EOF / errors.New, and layered chains in which GRPCWrap
+// was already applied at an inner level.
+func TestC19ExhaustiveTrees(t *testing.T) {
+	st := vstat.For(prop)
+	shard, shards := vstat.Shard()
+	depth := vstat.Pick(3, 4)
+	n, lists, seq := int64(0), int64(0), 0
+	enum.Lists(len(Levels), depth, 0, 1, func(idx []int) {
+		seq++
+		if seq%shards != shard {
+			return
+		}
+		lists++
+		wraps := make([]Wrap, len(idx))
+		for i, e := range idx {
+			wraps[i] = Levels[e]
+		}
+		for _, cls := range CodedClasses {
+			for emb := -1; emb <= len(wraps); emb++ {
+				c := Case{Kind: "chain", Chain: Chain{Class: cls, Wraps: wraps, Embed: emb}}
+				if emb >= 0 {
+					c.Obj = Objects[0]
+				}
+				info, v := Run(c)
+				st.Report(t, "TestC19ExhaustiveTrees", c, v)
+				record(c, info)
+				n++
+			}
+		}
+	})
+	st.SetExhaustive("errors_class_x_levelformlists_x_embedlevel", map[string]any{
+		"classes_with_code": len(CodedClasses), "level_forms": len(Levels), "side_error_kinds": SideKinds, "depth": depth,
+		"level_lists_this_shard": lists, "cases_this_shard": n, "shards": shards})
 }
 
 // text pieces: ASCII, unicode, JSON fragments, colons, '%', ESC, "json", marker prefixes, class and gRPC phrases
@@ -239,13 +320,50 @@ func genTarget(t *rapid.T, big int) (int, string) {
 	return target, pad
 }
 
+func genSide(t *rapid.T) Side {
+	sd := Side{Kind: rapid.SampledFrom(SideKinds).Draw(t, "sideKind")}
+	if sd.Kind == "new" || rapid.Bool().Draw(t, "sideWrapped") {
+		sd.Text = genText(t, "sideText")
+	}
+	return sd
+}
+
+func genLevel(t *rapid.T, mixed bool) Wrap {
+	w := Wrap{Pre: genText(t, "pre"), Post: genText(t, "post")}
+	if !mixed {
+		return w
+	}
+	switch k := rapid.IntRange(0, 9).Draw(t, "levelKind"); {
+	case k < 3: // plain
+	case k < 5:
+		return Wrap{Kind: LGRPC}
+	default:
+		if k >= 8 {
+			w.Kind = LJoin
+		}
+		n := rapid.SampledFrom([]int{1, 1, 1, 2, 3}).Draw(t, "sides")
+		if w.Kind == LJoin && rapid.IntRange(0, 9).Draw(t, "joinOfOne") == 0 {
+			n = 0
+		}
+		for i := 0; i < n; i++ {
+			w.Sides = append(w.Sides, genSide(t))
+		}
+		w.Pos = rapid.IntRange(0, n).Draw(t, "pos")
+		w.Mid = genText(t, "mid")
+	}
+	return w
+}
+
 func genChain(t *rapid.T, big int) Chain {
 	c := Chain{Embed: -1}
 	c.Class = rapid.SampledFrom(CodedClasses).Draw(t, "class")
 	depth := rapid.IntRange(0, vstat.Pick(4, 6)).Draw(t, "depth")
 	c.Wraps = make([]Wrap, depth)
+	// 40% of the chains are plain fmt chains; the others mix in levels with side branches (fmt with several %w,
+	// errors.Join) and GRPCWrap at inner levels
+	mixed := rapid.IntRange(0, 9).Draw(t, "mixed") >= 4
 	for i := range c.Wraps {
-		c.Wraps[i] = Wrap{Pre: genText(t, "pre"), Post: genText(t, "post")}
+		c.Wraps[i] = genLevel(t, mixed)
 	}
 	if rapid.IntRange(0, 3).Draw(t, "embed?") > 0 {
 		c.Embed = rapid.IntRange(0, depth).Draw(t, "embedLevel")
@@ -271,6 +389,15 @@ func genCase(t *rapid.T) Case {
 				ch.Obj = &o
 			}
 			c.Batch = append(c.Batch, ch)
+		}
+		// a third of the batches: one chain is replaced by a pair of twins - same message, different class
+		if rapid.IntRange(0, 2).Draw(t, "twins") == 0 {
+			i := rapid.IntRange(0, k-1).Draw(t, "twinOf")
+			if x, y, ok := Twins(c.Batch[i], rapid.SampledFrom(CodedClasses).Draw(t, "twinClass")); ok {
+				c.Batch[i] = x
+				j := rapid.IntRange(0, k).Draw(t, "twinAt")
+				c.Batch = append(c.Batch[:j], append([]Chain{y}, c.Batch[j:]...)...)
+			}
 		}
 		return c
 	}
